@@ -40,8 +40,21 @@ def run_gasol(texts, opts, timeout=40):
     return gasol.pmap(_opt_one, texts, init=_init, initargs=(list(opts),), timeout=timeout)
 
 
+_BUILT = [False]
+
+
+def ensure_built():
+    """The validator and the search module must be compiled (consistently) before cases files use them."""
+    if not _BUILT[0]:
+        ok, out = common.coq_make(["Val/Search.vo", "Val/EquivProofs.vo"])
+        if not ok:
+            raise RuntimeError("cannot build the validator: " + out[-800:])
+        _BUILT[0] = True
+
+
 def coq_pairs(pairs, name, chunk=150):
     """pairs: list of (old_items, new_items). Returns list of verdicts: True/False/None(unsupported)."""
+    ensure_built()
     verdict = [None] * len(pairs)
     enc = []
     for i, (a, b) in enumerate(pairs):
@@ -93,6 +106,7 @@ def stacks_for(need, rng, n=40):
 def search_witness(old_items, new_items, rng, name):
     """Search a concrete state on which the reference semantics tells the two blocks apart.
     Segment-wise (between events). Returns dict or None."""
+    ensure_built()
     segs1, ev1 = evmconv.split_events(old_items)
     segs2, ev2 = evmconv.split_events(new_items)
     if [(d, str(v)) for d, v in ev1] != [(d, str(v)) for d, v in ev2]:
